@@ -329,14 +329,12 @@ def r8_compound_assign(b):
                 while k >= 0 and (toks[k].kind in ("id", "num") or toks[k].text == "."):
                     k -= 1
                 lhs_toks = toks[k + 1:i]
-                if not lhs_toks or (k >= 0 and toks[k].text not in ("{", ";", "}", ")")):
-                    # `)` covers `if c { .. } x += ..` never; be conservative
-                    if k >= 0 and toks[k].text not in ("{", ";", "}"):
-                        raise ExtractError("unsupported construct: compound assignment with complex place")
+                if not lhs_toks or (k >= 0 and toks[k].text not in ("{", ";", "}", "=>")):
+                    raise ExtractError("unsupported construct: compound assignment with complex place")
                 lhs = b.text[lhs_toks[0].start:lhs_toks[-1].end]
                 # rhs to ';' or closing '}' at depth 0
                 j = i + 1
-                while j < len(toks) and toks[j].text not in (";", "}"):
+                while j < len(toks) and toks[j].text not in (";", "}", ","):
                     if toks[j].text in rtok.OPEN:
                         j = match_close(toks, j)
                     j += 1
@@ -415,6 +413,103 @@ def r17_float_casts(b):
                     break
                 operand = b.text[toks[k].start:toks[i - 1].end]
                 b.edit([(toks[k].start, toks[i + 1].end, f"as_f64({operand})")], "R17")
+                done = False
+                break
+        if done:
+            return
+
+
+def r15_while_let(b):
+    """while let Some(P) = E { BODY }  ->  loop { let __wl = E; if __wl.is_none() { break; } let P = __wl.unwrap(); BODY }"""
+    while True:
+        toks = b.toks()
+        done = True
+        for i, t in enumerate(toks):
+            if t.text == "while" and i + 1 < len(toks) and toks[i + 1].text == "let":
+                if toks[i + 2].text != "Some" or toks[i + 3].text != "(":
+                    raise ExtractError("unsupported construct: `while let` with a pattern other than Some(..)")
+                pc = match_close(toks, i + 3)
+                if toks[pc + 1].text != "=":
+                    raise ExtractError("unsupported construct: `while let` shape")
+                j = pc + 2
+                while toks[j].text != "{":
+                    if toks[j].text in ("(", "["):
+                        j = match_close(toks, j)
+                    j += 1
+                pat = b.text[toks[i + 3].end:toks[pc].start]
+                expr = b.text[toks[pc + 2].start:toks[j].start].strip()
+                b.edit([(t.start, toks[j].end, f"loop {{ let __wl = {expr}; if __wl.is_none() {{ break; }} let {pat} = __wl.unwrap();")], "R15")
+                done = False
+                break
+        if done:
+            return
+
+
+def _char_lits(strtok):
+    body = strtok[1:-1]
+    out, k = [], 0
+    while k < len(body):
+        c = body[k]
+        if c == "\\":
+            out.append("'" + body[k:k + 2] + "'")
+            k += 2
+        else:
+            out.append("'" + (c if c != "'" else "\\'") + "'")
+            k += 1
+    return "seq![" + ", ".join(out) + "]"
+
+
+def r19_match_str(b):
+    """match X.as_str() { "a" => A, "b" => B, name => C }  ->  match str_match_index(X.as_str(), Ghost(table)) { 0 => A, 1 => B, _ => { let name = X.as_str(); C } }"""
+    while True:
+        toks = b.toks()
+        done = True
+        for i, t in enumerate(toks):
+            if t.text == "match":
+                j = i + 1
+                while toks[j].text != "{":
+                    if toks[j].text in ("(", "["):
+                        j = match_close(toks, j)
+                    j += 1
+                scrut = toks[i + 1:j]
+                if [x.text for x in scrut[-4:]] != [".", "as_str", "(", ")"]:
+                    continue
+                bc = match_close(toks, j)
+                # arms
+                arms, k = [], j + 1
+                while k < bc:
+                    ps = k
+                    while toks[k].text != "=>":
+                        k += 1
+                    pat = toks[ps:k]
+                    k += 1
+                    es = k
+                    while k < bc and toks[k].text != ",":
+                        if toks[k].text in rtok.OPEN:
+                            k = match_close(toks, k)
+                        k += 1
+                    arms.append((pat, es, k))
+                    k += 1
+                if not any(a[0][0].kind == "str" for a in arms):
+                    continue
+                lits, edits = [], []
+                for (pat, es, ke) in arms:
+                    if len(pat) == 1 and pat[0].kind == "str":
+                        edits.append((pat[0].start, pat[0].end, str(len(lits))))
+                        lits.append(_char_lits(pat[0].text))
+                    elif len(pat) == 1 and pat[0].kind == "id":
+                        nm = pat[0].text
+                        sc = b.text[scrut[0].start:scrut[-1].end]
+                        expr_txt = b.text[toks[es].start:toks[ke - 1].end]
+                        edits.append((pat[0].start, toks[ke - 1].end, "_ => { let " + nm + " = " + sc + "; " + expr_txt + " }"))
+                    else:
+                        raise ExtractError("unsupported construct: string match with a complex pattern")
+                sc = b.text[scrut[0].start:scrut[-1].end]
+                table = "seq![" + ", ".join(lits) + "]"
+                edits.append((scrut[0].start, scrut[-1].end, f"str_match_index({sc}, Ghost(__tbl))"))
+                edits.append((t.start, t.start, f"{{ let ghost __tbl: Seq<Seq<char>> = {table}; "))
+                edits.append((toks[bc].end, toks[bc].end, " }"))
+                b.edit(edits, "R19")
                 done = False
                 break
         if done:
@@ -770,6 +865,8 @@ def emit_fn(unit, blk, rel):
             continue   # a declared substitution that does not occur changes nothing; Verus will reject any leftover it cannot resolve
         body.edit([(toks_b[h].start, toks_b[h + len(pat) - 1].end, to) for h in hits], "R12")
     r3_types(body, blk.types)
+    r15_while_let(body)
+    r19_match_str(body)
     r6_enumerate(body)
     r7_destructuring_assign(body)
     r8_compound_assign(body)
